@@ -34,7 +34,7 @@ def oracle_serial(r: dict) -> list[str]:
         if any(t.startswith('cs:') for t in toks):
             cur = next(t for t in toks if t.startswith('cs:'))[3:].split('/')[0]
         w = op.split()
-        if w[0] in ('exit', 'pexit', 'xreset', 'xclose') and cur is not None:
+        if w[0] in ('exit', 'pexit', 'xreset', 'xclose', 'kclose') and cur is not None:
             # the child of run `cur` has exited: the run must be finished now
             if 'ps:finished' not in toks:
                 msgs.append(f'the child of run {cur} exited ({op!r}) but finished was not published')
